@@ -10,8 +10,10 @@ usage: mutest.py <Cxx> <k> [--props C01,C02] [--keep-name NAME]
 """
 import json, os, re, shutil, subprocess, sys, time
 
-def sh(cmd, cwd=None, timeout=3600):
-    env = dict(os.environ, CARGO_NET_OFFLINE="true", CARGO_TARGET_DIR="/tmp/mut/target")
+def sh(cmd, cwd=None, timeout=3600, shared_target=True):
+    env = dict(os.environ, CARGO_NET_OFFLINE="true")
+    if shared_target:
+        env["CARGO_TARGET_DIR"] = "/tmp/mut/target"
     p = subprocess.run(cmd, cwd=cwd, shell=isinstance(cmd, str), stdout=subprocess.PIPE, stderr=subprocess.STDOUT, text=True, timeout=timeout, env=env)
     return p.returncode, p.stdout
 
@@ -61,7 +63,7 @@ def main():
                 print("patch does not apply to /repo", out); return 2
             for p in props:
                 t0 = time.time()
-                rc, out = sh(["/verif/check", p], cwd="/verif")
+                rc, out = sh(["/verif/check", p], cwd="/verif", shared_target=False)
                 lines = [l for l in out.splitlines() if l.startswith(("VIOLATION", "OK", "KNOWN"))]
                 viol = [l for l in lines if l.startswith("VIOLATION")]
                 detail = ""
